@@ -45,7 +45,7 @@ package main
 // ---- pollForNewRequests: dedup over the whole history of list replies (C04), backoff (C08), polling gate (C20) ----
 //@ func pollForNewRequests props(C04,C08,C20,C07)
 //@   requires client != nil && hostProxy != nil && pollingCtx != nil
-//@   ghost spawned map[string]int
+//@   ghost spawned map[string]int = zero
 //@   ghost fails int = 0
 //@   ghost failed bool = false
 //@   ghost slept bool = false
